@@ -183,14 +183,29 @@ def check(run):
         metas.append({"plan": ["lexicon of %d words" % len(words), nseg], "nseg": nseg, "deleted": 0})
     rejects = qobs.judge(run, cases, name="QueryCheck-fuzzy", chunk=1)
     # classification of the recorded findings
+    RANKING = {"not_the_word_itself", "closer_then_more_frequent_first", "limit_keeps_the_best"}
     extra = {}
+    # candidates missing from a one-segment reader's suggestions: the recorded finding "segment readers expand
+    # with plain Levenshtein" when the very same observation is complete under that distance
+    again = [(ci, qi, oi) for ci, qi, oi, exp in rejects
+             if cases[ci]["qs"][qi]["obs"][oi]["kind"] == "suggest" and exp.get("nothing_missing_below_the_limit") is False]
+    levfailed = {}
+    if again:
+        acases = [{"idx": cases[ci]["idx"], "qs": [{"q": {"op": "null"}, "obs": [dict(cases[ci]["qs"][qi]["obs"][oi], lev=True)]}]}
+                  for ci, qi, oi in again]
+        rej2 = dict((r[0], r[3]) for r in qobs.judge(run, acases, name="QueryCheck-suggest-lev", chunk=1))
+        for n, key in enumerate(again):
+            levfailed[key] = set(k for k, v in rej2.get(n, {}).items() if v is False)
     for ci, qi, oi, exp in rejects:
         o = cases[ci]["qs"][qi]["obs"][oi]
         if o["kind"] == "suggest":
             failed = set(k for k, v in exp.items() if v is False)
-            # the core fact - every suggestion is an existing term within the distance - is never excused
-            if failed and failed <= {"not_the_word_itself", "closer_then_more_frequent_first", "limit_keeps_the_best"}:
+            # the core facts - every suggestion is an existing term within the distance, and nothing within it is
+            # missing from an uncut list - are never excused
+            if failed and failed <= RANKING:
                 extra[(ci, qi, oi)] = "suggest-ranking-and-self"
+            elif (ci, qi, oi) in levfailed and levfailed[(ci, qi, oi)] <= RANKING and "1seg" in o["path"]:
+                extra[(ci, qi, oi)] = "fuzzy-single-segment-levenshtein"
             else:
                 extra[(ci, qi, oi)] = "suggest:" + "+".join(sorted(failed))
     c01.EXTRA_CLASSES = extra
